@@ -26,7 +26,7 @@ COMPONENTS = {"real": "whole IPhreeqc library from /repo's working tree (ASan+UB
 ASSUMPTIONS = ["descriptor-level capture equals file content (regular files in a private sandbox directory)",
                "for the dump stream the comparison is between what each sink received during the run (string delta vs bytes written)"]
 REACH_PROBES = ["runs_after_failed_load", "both_sinks_compared", "dump_compared", "sel_compared", "error_subsequence_checked", "fault_fired", "runs_with_errors"]
-tiers = {"quick": dict(runs=3000, budget_s=110, workers=16), "thorough": dict(runs=60000, budget_s=1500, workers=16)}
+tiers = {"quick": dict(runs=6000, budget_s=150, workers=16), "thorough": dict(runs=60000, budget_s=1500, workers=16)}
 
 GLOBAL_SW = ["OutputFileOn", "OutputStringOn", "LogFileOn", "LogStringOn", "ErrorFileOn", "ErrorStringOn", "DumpFileOn", "DumpStringOn", "ErrorOn"]
 
